@@ -165,8 +165,8 @@ def choose_event(rng, w, profile):
 
 def gen_params(rng, tier, for_c09=False):
     if for_c09:
-        n = rng.choice([1, 1, 2, 3, 3])
-        nc = rng.choice([1, 2, 2, 3])
+        n = rng.choice([1, 1, 1, 2, 2, 3])
+        nc = rng.choice([2, 2, 3])
         maxfail = (n - 1) // 2
         crashers = sorted(rng.sample(range(1, n + 1), rng.randint(0, maxfail))) if (maxfail > 0 and rng.random() < 0.4) else []
         return {"n": n, "nc": nc, "buf": rng.choice([3, 4, 6, 10]), "fifo": True, "explorefail": True,
